@@ -386,7 +386,11 @@ func runC04(c *Ctx) {
 	c.L.Floor("C04.codec-tables", 4)
 
 	dec := c.fn("netutil", "IPFromReversedAddr")
-	if dec != nil {
+	if c04AcceptedExact(c) {
+		// the accepted language of the whole decoder is decided exactly
+		// (c04enc.go): the dispatcher rules are the fall-back
+		c.L.Floor("C04.ascii-fold", 0)
+	} else if dec != nil {
 		asciiFoldRule(c, "C04", dec)
 		c04Dispatch(c, dec)
 	}
@@ -450,7 +454,7 @@ func runC04(c *Ctx) {
 		}
 		c.check(okP, "C04.v4.parse", f, "reverseIPv4 is the permutation k -> 3-k", nil, perm)
 	}
-	// ---- the round trip, end to end ----
+	// ---- the round trip and the accepted language, end to end ----
 	c04RoundTripExact(c)
 	// ---- R4 encoder ----
 	if f := c.fn("netutil", "IPToReversedAddr"); f != nil && c04EncoderExact(c, f) {
@@ -1019,6 +1023,8 @@ func runC05(c *Ctx) {
 				"the predicate is outside the exact evaluator's grammar (see the notes of the evidence); the extractor's longest-suffix clause rests on it")
 		}
 	}
+	wholePrefix := c05EntryExact(c, "PrefixFromReversedAddr", false)
+	wholeExtract := c05EntryExact(c, "ExtractReversedAddr", true)
 	idxExact := c05IndexExact(c)
 	if len(idxExact) == 2 {
 		c.L.Floor("C05.label-aligned", 1)
@@ -1039,16 +1045,26 @@ func runC05(c *Ctx) {
 
 	pfr := c.fn("netutil", "PrefixFromReversedAddr")
 	ext := c.fn("netutil", "ExtractReversedAddr")
+	// the dispatcher rules are fall-backs of the whole-function decisions
+	nFold := 2
 	for _, f := range []*ssa.Function{pfr, ext} {
+		if (f == pfr && wholePrefix) || (f == ext && wholeExtract) {
+			nFold--
+			continue
+		}
 		if f != nil {
 			asciiFoldRule(c, "C05", f)
 		}
+	}
+	c.L.Floor("C05.ascii-fold", nFold)
+	if wholeExtract {
+		c.L.Floor("C05.label-aligned", 0)
 	}
 	v4 := c.fn("netutil", "ipv4NetFromReversed")
 	v6 := c.fn("netutil", "ipv6NetFromReversed")
 
 	// ---- E1 assertions ----
-	if ext != nil && pfr != nil {
+	if ext != nil && pfr != nil && !wholeExtract {
 		lincon.Reset()
 		a := lincon.New(c.P.SSA, core.InModule)
 		// sites
